@@ -1,5 +1,6 @@
 """C12 — strand symmetry: reverse-complemented inputs give the reverse complement"""
 import asm
+import boot
 import gen
 import impl
 import typing_h as T
@@ -8,7 +9,7 @@ TABLES = ["Enzymes"]
 LAKE_TARGETS = ["Moclo.Props.C12", "Moclo.Tables.Enzymes"]
 THEOREMS = ["Moclo.C12." + t for t in ["generic_structures_self_rc", "live_structures_self_rc", "fits_rc", "fits_rc_on_circle", "generic_occurs_iff", "mirrored_group_text", "mirrored_marks", "screen_rc", "live_sites_nonpalindromic", "report_rc", "valid_rc", "graph_rc", "ent_of_report", "assemble_rc", "unique_fit_checkable"]]
 # reductions under which a failing case stays a case of this property (see shrink.py)
-SHRINK = {"strings": True, "freeze_if": ["real"]}
+SHRINK = {"strings": True, "freeze_if": ["real", "user"]}
 RULE = ("well-formed generic modules/vectors over every enzyme geometry (exactly the two sites) at a random rotation: "
         "valid iff the reverse complement (computed by the implementation) is, overhangs exchanged and "
         "reverse-complemented, body reverse-complemented; assemblies of the reverse complements compared (up to "
@@ -68,6 +69,41 @@ def check_typing(ctx, case):
         ctx.note("unique-fit-both-strands:" + str(c1 == 1 and c2 == 1))
         ctx.op(("FITS", cls.structure(), wd), case, reply=str(c1))
         ctx.op(("FITS", cls.structure(), rw), case, reply=str(c2))
+
+
+def user_enzyme(site):
+    """a Type IIS enzyme that is not in Biopython's copy of REBASE, declared the way Bio.Restriction declares its own:
+    the geometry of BsaI, N(1/5), with another recognition site (any IUPAC codes)"""
+    from Bio.Restriction import BsaI
+    from Bio.Restriction.Restriction_Dictionary import rest_dict
+    name = "Usr" + site
+    fw = "".join(c_ if c_ in "ACGT" else "[" + gen.IUPAC[c_] + "]" for c_ in site)
+    rv = "".join(c_ if c_ in "ACGT" else "[" + gen.IUPAC[c_] + "]" for c_ in gen.rc(site))
+    spec = dict(rest_dict["BsaI"])
+    spec.update(site=site, charac=(len(site) + 1, 5, None, None, site), suppl=(), id=None, uri=None,
+                compsite="(?=(?P<{0}>{1}))|(?=(?P<{0}_as>{2}))".format(name, fw, rv), freq=4096.0)
+    return type(BsaI)(name, BsaI.__bases__, spec)
+
+
+def check_user_enzyme(ctx, case):
+    """generic classes over a user-declared cutter whose site carries ambiguity codes: the structure they derive reads
+    both strands alike (every code has its complement: R/Y, K/M, B/V, D/H; S, W, N are their own)"""
+    enz = user_enzyme(case["site"])
+    base = boot.AbstractModule if case["kind"] == "M" else boot.AbstractVector
+    cls = type("UserGeneric", (base,), {"cutter": enz})
+    wd = case["word"]
+    a, b = T.evaluate(cls, wd), T.evaluate(cls, gen.rc(wd))
+    if a[0] != "valid":
+        ctx.fail("the generic {} class over the user-declared cutter {} rejects a plasmid built with two of its sites: {!r} ({})".format(
+            "module" if case["kind"] == "M" else "vector", case["site"], wd, a[0]), case)
+    elif b[0] != "valid":
+        ctx.fail("generic class over the user-declared cutter {}: {!r} is valid but its reverse complement is {}".format(
+            case["site"], wd, b[0]), case)
+    elif b[1].upper() != gen.rc(a[2]).upper() or b[2].upper() != gen.rc(a[1]).upper():
+        ctx.fail("generic class over the user-declared cutter {}: overhangs {}/{} become {}/{} on the reverse complement".format(
+            case["site"], a[1], a[2], b[1], b[2]), case)
+    ctx.note("user-declared-cutter")
+    ctx.case(case, nontrivial=a[0] == "valid", key=["user", case["site"], case["kind"], wd])
 
 
 def check_assembly(ctx, case):
@@ -162,6 +198,18 @@ def run(ctx):
         ctx.guard(check_typing, {"cls": "part:{}:{}:{}:{}".format(kind, enz, sig[0], sig[1]), "real": True,
                                  "cls_rc": "part:{}:{}:{}:{}".format(kind, enz, gen.rc(sig[1]), gen.rc(sig[0])),
                                  "word": gen.rot(wd, rng.randrange(len(wd)))})
+    # cutters declared by the user (not in Biopython's catalogue), with every ambiguity code in their site in turn
+    for code, kind in [(c_, k_) for c_ in "RYSWKMBDHVN" for k_ in "MV"]:
+        for _ in range(ctx.budget(4, 30)):
+            site = "GGT" + code + "TC" if rng.random() < 0.5 else "G" + code + "TCTC"
+            enz = user_enzyme(site)
+            up, down = gen.rnd(rng, 4), gen.rnd(rng, 4)
+            if up == down or gen.rc(up) == down:
+                continue
+            wd = gen.real_part_word(rng, enz, kind, up, down)
+            if wd is None:
+                continue
+            ctx.guard(check_user_enzyme, {"site": site, "kind": kind, "word": gen.rot(wd, rng.randrange(len(wd))), "user": True})
     # cutters the library accepts although they cut inside their own site (BbvCI, AciI, BssSI …): whatever structure the
     # generic classes derive for them, a plasmid with exactly the two sites is read alike on both strands
     from Bio import Restriction
@@ -325,7 +373,9 @@ def run(ctx):
 
 
 def check_case(ctx, case):
-    if "vector" in case:
+    if case.get("user"):
+        ctx.guard(check_user_enzyme, case)
+    elif "vector" in case:
         ctx.guard(check_assembly, case)
     elif "cls" in case:
         ctx.guard(check_typing, case)
